@@ -63,6 +63,10 @@ pub(crate) mod verif_e6 {
     pub(crate) static mut CT_N: usize = 0;
     pub(crate) static mut CT_TABLE: [usize; 3] = [0; 3];   // address of the default table passed (identifies the code type)
     pub(crate) static mut CT_MAXLOG: [u8; 3] = [0; 3];
+    pub(crate) static mut T_ADDR: [usize; 3] = [0; 3];     // set by the harness: addresses of the ll / ml / of default tables
+    pub(crate) static mut ET_N: usize = 0;
+    pub(crate) static mut ET_ORDER: [usize; 3] = [0; 3];   // encode_table calls: which table, in which order
+    pub(crate) static mut ES_TABLES: [usize; 3] = [0; 3];  // tables handed to encode_sequences (ll, ml, of parameter positions)
     pub(crate) static mut ES_CALLS: u32 = 0;
     pub(crate) static mut ES_NSEQ: usize = 0;
     pub(crate) static mut ES_SEQ0: (u32, u32, u32) = (0, 0, 0);
@@ -74,14 +78,25 @@ pub(crate) mod verif_e6 {
             CT_TABLE[CT_N] = default_table as *const FSETable as usize;
             CT_MAXLOG[CT_N] = max_log;
             CT_N += 1;
+            // give the match-length table a different mode so that argument mix-ups show in the modes byte
+            if default_table as *const FSETable as usize == T_ADDR[1] { return FseTableMode::RepeateLast(default_table); }
         }
         FseTableMode::Predefined(default_table)
+    }
+    /// contract stub of encode_table: records the order in which the table descriptions are written
+    pub(crate) fn stub_encode_table(mode: &FseTableMode<'_>, _w: &mut BitWriter<&mut Vec<u8>>) {
+        unsafe {
+            assert!(ET_N < 3);
+            ET_ORDER[ET_N] = mode.as_ref() as *const FSETable as usize;
+            ET_N += 1;
+        }
     }
     pub(crate) fn stub_encode_sequences(sequences: &[crate::blocks::sequence_section::Sequence], _w: &mut BitWriter<&mut Vec<u8>>, _ll: &FSETable, _ml: &FSETable, _of: &FSETable) {
         unsafe {
             ES_CALLS += 1;
             ES_NSEQ = sequences.len();
             ES_SEQ0 = (sequences[0].ll, sequences[0].ml, sequences[0].of);
+            ES_TABLES = [_ll as *const FSETable as usize, _ml as *const FSETable as usize, _of as *const FSETable as usize];
         }
     }
 
@@ -105,11 +120,12 @@ pub(crate) mod verif_e6 {
     /// +3 offset convention (offset values 1..=3 are the repeat codes)
     #[cfg(kani)]
     #[kani::proof]
-    #[kani::unwind(8)]
+    #[kani::unwind(30)]
     #[kani::stub(super::compress_literals, stub_compress_literals)]
     #[kani::stub(super::raw_literals, stub_raw_literals)]
     #[kani::stub(super::choose_table, stub_choose_table)]
     #[kani::stub(super::encode_sequences, stub_encode_sequences)]
+    #[kani::stub(super::encode_table, stub_encode_table)]
     fn e6_sequences_call_sites() {
         let offset: usize = kani::any();
         let match_len: usize = kani::any();
@@ -121,9 +137,15 @@ pub(crate) mod verif_e6 {
             fse_tables: FseTables { ll_default: dummy(), ll_previous: None, ml_default: dummy(), ml_previous: None, of_default: dummy(), of_previous: None },
         };
         let (ll_t, ml_t, of_t) = (&state.fse_tables.ll_default as *const FSETable as usize, &state.fse_tables.ml_default as *const FSETable as usize, &state.fse_tables.of_default as *const FSETable as usize);
+        unsafe { T_ADDR = [ll_t, ml_t, of_t]; ET_N = 0; }
         let mut out = Vec::new();
         compress_block(&mut state, &mut out);
         unsafe {
+            // RFC 8878 3.1.1.3.2.1: Symbol_Compression_Modes = LL mode << 6 | OF mode << 4 | ML mode << 2 (here: LL, OF predefined = 0, ML repeat = 3)
+            assert!(out.len() >= 2 && out[0] == 1 && out[1] == 3 << 2, "E6: sequence count 1, then the modes byte with each table's mode in its own bit field");
+            // ... followed by the table descriptions in the order literal lengths, offsets, match lengths
+            assert!(ET_N == 3 && ET_ORDER == [ll_t, of_t, ml_t], "E6: table descriptions are written in the order LL, OF, ML");
+            assert!(ES_TABLES == [ll_t, ml_t, of_t], "E6: the sequence writer gets each table in its own parameter");
             assert!(R_CALLS == 1 && R_LEN == 3 && L_CALLS == 0, "E6: the three literal bytes are written once, raw (short literals)");
             assert!(CT_N == 3 && ES_CALLS == 1 && ES_NSEQ == 1, "E6: one table per code type, one sequence handed to the sequence writer");
             let mut i = 0;
